@@ -16,7 +16,10 @@ the values in the valid cells.  All arithmetic is carried out on :class:`Lin` ob
 carry, next to the value, the running bound ``sum_j |w_j| |u_j|`` of the linear
 combination; :func:`tolerance` turns it into the admissible deviation
 ``eps * bound * (64 + 16 kappa)``, where ``kappa`` measures how well the grid geometry
-itself (cell size, shell volumes) is determined by the bounds handed to the constructor.
+itself (cell size, shell volumes) is determined by the bounds handed to the constructor
+(``max|bound| / length`` per axis, times the number of cells for the spherical shell volumes
+``r_h^3 - r_l^3``); coefficients that contain the inner face radius ``r_l = r - dr/2`` carry an
+additional relative uncertainty ``4 eps r / r_l`` per power of ``r_l`` (:meth:`Lin.times`).
 
 The geometry (cell size, cell centres) is computed here from the *spec* by the documented
 formula ``x_i = x_min + (i + 1/2) dx,  dx = (x_max - x_min) / N`` - never taken from the
